@@ -69,7 +69,25 @@ class C02(PropCheck):
             sec3.add(sx.line('total'), out, meta={'html': doc['html'], 'features': doc['features']},
                      nontrivial=len(doc['features']) >= 3, tags=doc['features'])
 
+        sec4 = run.section(
+            'totality-families',
+            'deterministic adversarial-but-legal corners (harness/families.py totality_documents): zero-size floats '
+            'before floats that do not fit, auto tables with constrained empty columns, short paragraphs on tiny pages '
+            'with large orphans/widows, degenerate multi-column / flex / grid containers, pages smaller than their '
+            'margins - each rendered and written with a 20 s limit; ids already failing on the pinned tree are in '
+            'corpus/C02/family_known.json; non-trivial = every case')
+        import json
+        from harness import families
+        from vlib.paths import CORPUS
+        known_path = CORPUS / 'C02' / 'family_known.json'
+        self._family_known = json.loads(known_path.read_text()) if known_path.exists() else {}
+        for doc_id, html in families.totality_documents():
+            out = wide_trace.render_outcome(html)
+            sec4.add(sx.line('total'), out, meta={'doc_id': doc_id, 'html': html}, tags=[doc_id.split('-')[1]])
+
     def classify(self, d):
+        if d['section'] == 'totality-families' and self._family_known.get(d['meta']['doc_id']) == d['impl']:
+            return 'family-documents-known'
         if d['section'] == 'pm-outcomes' and d['impl'] == 'err:IndexError@page.py:_update_page_groups':
             return 'page-groups-indexerror'
         if d['section'] == 'wide-total' and d['impl'].startswith('err:'):
